@@ -13,6 +13,10 @@ Op lines (symbolic addresses `A`,`B`,…, `gov`; `-` = empty / none):
   delname <signer> <name>
   begin <t>
   dump
+A `<name>` is the RAW spelling of the message's name with `_` standing for a space
+(`KYC.vf`, `_kyc.vf`, `kyc_.vf`): `parseName` computes the normalised name (`Normalize`) and the
+`Spelling` flags by running the three Go key functions on the raw string.  `bind` takes the
+record segment from the raw name up to its last dot; the parent is always the root `vf`.
 Result lines are `ok` / `err:<class>`; `dump` renders the whole state canonically
 (`now= names= recs= look= cnt= q=`, every list sorted).  The verdict is given on the `dump`
 line that follows an op: the property clauses (`AttrSpec.verdict`) evaluated on the state the
@@ -43,17 +47,51 @@ def showExp : Option Nat → String
 def sortStrs (l : List String) : List String := (l.toArray.qsort (· < ·)).toList
 def joinOr (l : List String) (sep : String) : String := if l.isEmpty then "-" else sep.intercalate l
 
-def parseOp (ws : List String) : Option Op :=
+/-- `strings.TrimSpace` on the ASCII white space the harness uses. -/
+def trimSp (s : String) : String := s.trimAscii.toString
+
+/-- `nametypes.NormalizeName` (name/types/name.go:42): lower-case and trim every segment. -/
+def normalizeName (raw : String) : String :=
+  ".".intercalate ((raw.splitOn ".").map fun seg => (trimSp seg).toLower)
+
+/-- The raw name of an op line (`_` = space) → (normalised name, spelling flags).
+`nameKeyHit`: `GetNameKeyPrefix` (name/types/keys.go:33) hashes the trimmed, NOT lower-cased
+segments; `attrKeyHit`: `GetNameKeyBytes` (attribute/types/keys.go:107) hashes the lower-cased,
+outer-trimmed string. -/
+def parseName (tok : String) : String × Spelling :=
+  let raw := tok.replace "_" " "
+  let canon := normalizeName raw
+  (canon, { exact := raw == canon,
+            nameKeyHit := (raw.splitOn ".").map trimSp == canon.splitOn ".",
+            attrKeyHit := (trimSp raw).toLower == canon })
+
+def parseOp (ws : List String) : Option SOp :=
   match ws with
-  | ["add", sg, ac, n, v, ty, e] => some (.add sg ⟨dash ac, n, dash v, parseType ty, parseExp e⟩)
-  | ["upd", sg, ac, n, ov, ot, nv, nt] => some (.update sg (dash ac) n (dash ov) (parseType ot) (dash nv) (parseType nt))
-  | ["updexp", sg, ac, n, v, e] => some (.updateExp sg (dash ac) n (dash v) (parseExp e))
-  | ["del", sg, ac, n] => some (.delete sg (dash ac) n)
-  | ["deld", sg, ac, n, v] => some (.deleteDistinct sg (dash ac) n (dash v))
-  | ["bind", n, o] => some (.bind n o)
-  | ["xfer", au, n, o] => some (.transfer au n o)
-  | ["delname", sg, n] => some (.deleteName sg n)
-  | ["begin", t] => t.toNat?.map .beginBlock
+  | ["add", sg, ac, n, v, ty, e] =>
+    let (n, sp) := parseName n
+    some ⟨sp, .add sg ⟨dash ac, n, dash v, parseType ty, parseExp e⟩⟩
+  | ["upd", sg, ac, n, ov, ot, nv, nt] =>
+    let (n, sp) := parseName n
+    some ⟨sp, .update sg (dash ac) n (dash ov) (parseType ot) (dash nv) (parseType nt)⟩
+  | ["updexp", sg, ac, n, v, e] =>
+    let (n, sp) := parseName n
+    some ⟨sp, .updateExp sg (dash ac) n (dash v) (parseExp e)⟩
+  | ["del", sg, ac, n] =>
+    let (n, sp) := parseName n
+    some ⟨sp, .delete sg (dash ac) n⟩
+  | ["deld", sg, ac, n, v] =>
+    let (n, sp) := parseName n
+    some ⟨sp, .deleteDistinct sg (dash ac) n (dash v)⟩
+  | ["bind", n, o] =>
+    let (n, sp) := parseName n
+    some ⟨sp, .bind n o⟩
+  | ["xfer", au, n, o] =>
+    let (n, sp) := parseName n
+    some ⟨sp, .transfer au n o⟩
+  | ["delname", sg, n] =>
+    let (n, sp) := parseName n
+    some ⟨sp, .deleteName sg n⟩
+  | ["begin", t] => t.toNat?.map fun t => ⟨{}, .beginBlock t⟩
   | _ => none
 
 def parseInit (ws : List String) : State :=
@@ -130,9 +168,10 @@ def stepLine (d : DState) (op : String) (impl : Option String) : DState × Strin
     | none => (d, "bad-op", "-")
     | some o =>
       let acc := match impl with | some i => i.startsWith "ok" | none => false
-      match step d.model o with
-      | .ok s' => ({ d with model := s', pending := some (o, acc) }, "ok", "-")
-      | .error e => ({ d with pending := some (o, acc) }, e.toString, "-")
+      -- the checker judges the message by its NORMALISED name (`o.op`)
+      match stepS d.model o with
+      | .ok s' => ({ d with model := s', pending := some (o.op, acc) }, "ok", "-")
+      | .error e => ({ d with pending := some (o.op, acc) }, e.toString, "-")
 
 def driver : Driver where
   σ := DState
